@@ -1,21 +1,24 @@
 PROP = dict(
     lean_modules=["DefraModel.Props.C18"],
     props_modules=["DefraModel.Props.C18"],
-    engines=[dict(name="backup", timeout=3600)],
+    engines=[dict(name="backup", drv="backup", timeout=3600)],
     oracle_tags=None,
     rule=("generated databases: a value collection with String/Int/Float/Boolean/DateTime/Blob/JSON/[String!]/[Int!]/[Int] fields drawn from edge pools (integers up to +-2^63 and beyond 2^53, extreme and subnormal floats, "
           "nanosecond and offset date-times, empty/UTF-8/escaped strings, nested JSON, nulls and omitted fields), a one-to-many relation (authors/books incl. orphans) and a self-referencing one-to-one relation (chains, self references, later updates "
           "so that old and new identifiers differ); export pretty or compact, all collections or a subset; import into an empty database with the same schema; GraphQL dumps compared under the old->new mapping recorded in the file; second export compared with the first; "
           "an import file with an invalid last record must fail and leave the target empty; a case is one database"),
-    assumptions=["sha256/uuid5 are opaque (identifiers are compared, not recomputed)", "this engine has no model stream: the Lean model covers number decoding and identifier rewriting, the harness evaluates the property itself on the implementation"],
-    trusted_base=["harness/backup"],
+    assumptions=["sha256/uuid5 are opaque (identifiers are compared, not recomputed)", "the model stream covers the identifier rewriting of the self-referencing collection (symbolic injective hash: equal identifiers in the model = equal under a collision-free hash); value rendering per kind is evaluated on the implementation"],
+    trusted_base=["harness/backup, Driver/Backup.lean"],
 )
 META = dict(
     text=("Lean theorems: an importer that keeps the digits reproduces every integer, while decoding through IEEE double is the identity exactly up to 53 bits (witnesses of the repaired defect by decide); when the exporter writes every foreign key as the new identifier of its target, "
           "the identifiers of the imported documents are the recorded _docIDNew for every hash and every acyclic reference structure (proved from a fold characterisation of the identifiers); the mirror of the repository's exporter agrees with that for chains of two and is shown to differ for a chain of three (known finding). "
-          "Tied to /repo by export -> import -> dump comparison and re-export on generated databases, plus the atomicity probe."),
+          "The statement-by-statement mirror of basicExport / basicImport for a self-referencing collection (loop in key order, keyChangeCache, foreign document recomputed without its own reference, self-reference fix-up, the importer's self-reference detection) "
+          "is proved to write, for EVERY store in which no referenced document references another one (any size and order, changed documents, self references, references to deleted documents), the new identifier of every target, and the importer to give every record its recorded identifier "
+          "(cache invariant by induction over the loop); the chain of three is proved to fail on the same mirror. "
+          "Tied to /repo by running that mirror on every generated reference graph and comparing identifier equality patterns with the real file and the real imported database, by export -> import -> dump comparison and re-export, plus the atomicity and truncation probes."),
     design_ref="DESIGN.md section 8, C18",
-    note="Trusted: Lean kernel; harness/backup. PARTIAL: value rendering of the exporter for each kind is compared on the implementation only (no byte-level model of the export file). Known finding export-self-reference-chain is reported as KNOWN-FINDING.",
-    technique="Lean 4 proof (number decoding, identifier rewriting over acyclic references) + round-trip oracle on the implementation",
+    note="Trusted: Lean kernel; harness/backup; Driver/Backup.lean. PARTIAL: the round-trip theorem excludes chains of three documents, where the unchanged tree really fails (known finding); value rendering of the exporter for each kind is compared on the implementation only (no byte-level model of the export file). Known finding export-self-reference-chain is reported as KNOWN-FINDING.",
+    technique="Lean 4 proof (number decoding; mirror of the exporter/importer: cache invariant over the export loop, round trip exact without chains of three) + differential correspondence on identifier equality patterns + round-trip oracle",
 )
-ENGINES = [{"name": "backup", "path": "harness/backup", "serves_properties": ["C18"], "kind_free_text": "export / import / re-export round trips on generated databases with edge values and relation graphs"}]
+ENGINES = [{"name": "backup", "path": "harness/backup", "serves_properties": ["C18"], "kind_free_text": "export / import / re-export round trips on generated databases with edge values and relation graphs; reference graph replayed by drv backup"}]
